@@ -39,6 +39,7 @@ K_D17 = "D17:dir_rec:directory-cycle"
 K_DAG = "D17:shared-subdirectory-blowup"
 K_DEEP = "D26:fill_dir:recursion-depth"
 K_D27 = "D27:sqfs_xattr_reader_seek_kv:no-xattr-table"
+K_D28 = "D28:read_inode_slink_ext:dangling-result-after-failure"
 SITE_KEYS = [("dr_stream_get_buffered_data", K_D4), ("sqfs_data_reader_get_fragment", K_D5), ("sqfs_meta_reader_read", K_D3),
              ("sqfs_dir_reader_resolve_path", K_D19), ("sqfs_inode_unpack_dir_index_entry", K_D25)]
 OP_KEYS = {"unpack": K_D25, "getfrag": K_D5, "stream": K_D4, "resolve": K_D19, "read": K_D3, "seek": K_D3}
@@ -322,6 +323,8 @@ def routine_level(ctx, harness, stats):
             stats["crashes"] += 1
             site = crash_site(err) if isinstance(err, str) else None
             key = BUF_KEYS.get(c_unsafe.split(":")[0]) if c_unsafe else None
+            if key is None and op == "inode" and isinstance(err, str) and "double-free" in err and " in read_inode_slink_ext " in err:
+                key = K_D28      # the failed call left a freed pointer in *result; the harness frees it like resolve_path does
             replay = {"kind": "routine", "lines": [x for k, x in enumerate(lines) if owner[k] == owner[i] and k <= i], "rc": rc,
                       "site": site, "stderr": (err or "")[-1500:], "model_current": cur[i], "model_repaired": m}
             if key:
@@ -342,8 +345,8 @@ def routine_level(ctx, harness, stats):
             poisoned.add(owner[i])
         if got.startswith("err") or "err" in got.split()[-2:]:
             nontrivial.add(l)
-        if op == "dread" and got.startswith("err "):
-            got = "err"                            # the model does not name the error of a failing block load
+        if op in ("dread", "inode", "dirent") and got.startswith("err ") and got != "err ALLOC":
+            got = "err"                            # the model does not name the error for these operations
         if got == m_status:
             continue
         if got == "err ALLOC":
@@ -580,6 +583,10 @@ def classify_tool_failure(name, r, img):
     """returns (known key or None, description)"""
     rc, err = r["rc"], r["err"]
     site = crash_site(err)
+    if rc == 98 and err.count("runtime error:") == 1 and "which is declared to never be null" in err and " in fill_unpacked_files " in err:
+        # qsort(NULL, 0, ...) when an image holds no regular file (also on valid empty images): undefined by the letter of
+        # the standard, no access happens; reported in docs/design/C05.md, not a violation of C05
+        return "ok", "benign: qsort(NULL, 0)"
     if rc in (98, 99) or (isinstance(rc, int) and rc < 0) or "ERROR: AddressSanitizer" in err or "runtime error:" in err:
         if "rss limit" in err or "out of memory" in err.lower() or "allocation-size-too-big" in err:
             g = F.parse_dirs(img)
@@ -596,6 +603,8 @@ def classify_tool_failure(name, r, img):
             depth = F.max_depth(g, next(iter(g))) if g else None          # None: cyclic (then fill_dir must have refused)
             return (K_DEEP if (deep and depth is not None and depth >= 5000) else None), \
                 "stack overflow (recursion in read_tree.c/dir_tree.c: %s, directory nesting of the image: %s)" % (deep, depth)
+        if "double-free" in err and " in read_inode_slink_ext " in err:
+            return K_D28, "double free of the inode a failed read_inode_slink_ext left in *result"
         if "null pointer" in err and " in sqfs_xattr_reader_seek_kv " in err and site == "sqfs_meta_reader_seek":
             return K_D27, "NULL meta reader dereferenced: xattr index 0 on an image without xattr table"
         for s, k in SITE_KEYS:
